@@ -16,7 +16,7 @@ T7 = [
     ("contains_nul", r"self\.file_name\.contains\('\\0'\)", "shim_str_contains_nul(&self.file_name)", "assumed: result == (exists i. s[i] == NUL)"),
     ("format", r"format!\((?:[^()]|\([^()]*\))*\)", "shim_format_opaque()", "assumed: returns some String"),
     ("stderr", r"let _ = write!\(io::stderr\(\), (?:[^()]|\([^()]*\))*\);", "shim_stderr_note();", "assumed: no effect on verified state"),
-    ("any_eq", r"EXTRA_FIELD_MAPPING\.iter\(\)\.any\(\|&mapped\| mapped == kind\)", "shim_slice_contains_u16(&EXTRA_FIELD_MAPPING, kind)", "assumed: result == (exists i. a[i] == k)"),
+    ("any_eq", r"EXTRA_FIELD_MAPPING\.iter\(\)\.any\(\|&(\w+)\| \1 == kind\)", "shim_slice_contains_u16(&EXTRA_FIELD_MAPPING, kind)", "assumed: result == (exists i. a[i] == k)"),
 ]
 
 # T8: type-position rewrites forced by the shims (Verus cannot encode `dyn Trait` with a supertrait)
